@@ -394,10 +394,14 @@ func exhaustiveC19(thorough bool, emit func(C19Case) bool) {
 	}
 }
 
-func TestC19(t *testing.T) {
-	Run(t, Prop[C19Case]{ID: "C19", Gen: genC19, Exhaustive: exhaustiveC19, Check: checkC19,
-		Risky: func(c C19Case) bool { return c.Tree.N >= 2000 || len(c.Tree.Parents) >= 2000 }})
+func propC19() Prop[C19Case] {
+	return Prop[C19Case]{ID: "C19", Gen: genC19, Exhaustive: exhaustiveC19, Check: checkC19,
+		Risky: func(c C19Case) bool { return c.Tree.N >= 2000 || len(c.Tree.Parents) >= 2000 }}
 }
+
+func TestC19(t *testing.T) { Run(t, propC19()) }
+
+func FuzzGenC19(f *testing.F) { RunFuzz(f, propC19()) }
 
 // checkC19Race runs in a binary built with -race: several goroutines traverse the same tree at
 // the same time. Traversal "does not modify the tree", so concurrent traversals are pure readers;
